@@ -142,7 +142,7 @@ var (
 		"PREDEF":  {"$WS", "$ID", "$A_1", "$NUMBER", "$X9"},
 		"STRING":  {`"a"`, `"if"`, `"+"`, `"a\"b"`, `"\\"`, `"/*"`, `"//"`, `"x\ny"`, `"!#~"`, `"{{"`, `"\""`, `"\"hi\""`, `"x\"\""`, `"\\\""`, `"\"\\"`, `"a\/"`},
 		"REGEX":   {`/a/`, `/[0-9]+/`, `/a\/b/`, `/\\/`, `/a\\/`, `/ x /`, `/a|b*/`, `/[^"]/`, `/\//`, `/a\/\/b/`, `/x*/`},
-		"comment": {"//", "// c", "//x/*y*/", "/**/", "/*/ note */", "/*//////*/", "/*/ | x /*/", "/* c */", "/* a\n b */", "/* x **/", "/***/", "/*/*/", "/* * / */", "/*\t*/", "//\t\"q"},
+		"comment": {"//", "// c", "//x/*y*/", "/**/", "/*/ note */", "/*//////*/", "/*/ | x /*/", "/* \\*\\* */", "/**\\**/", "/* *\\/ x */", "/* c */", "/* a\n b */", "/* x **/", "/***/", "/*/*/", "/* * / */", "/*\t*/", "//\t\"q"},
 		"sep":     {" ", "\t", "\n", "\r\n", "  ", "\n\n", " \t "},
 		"near": {`"`, `"abc`, `"a b"`, `""`, `/`, `/abc`, `//`, `/*`, `/* x`, `/* x *`, `$`, `$x`, `$1`, `@`, `@lef`, `@lefty`, `@rightx`, `@non`, `#`, `%`, `&`, `'`, `~`, "`", `!`, `*`, `+`, `,`, `-`, `.`, `:`, `?`, `\`, `^`, `_`,
 			"é", "€", "😀", "\x7f", "\x01", "\f", "\v", "\uFEFF", "\u00A0", "\u2028", "\u200B", `"é"`, `/é/`, "// é", "/* é */",
